@@ -12,5 +12,949 @@ import Mathlib.Algebra.Order.Field.Basic
 import Mathlib.Data.Rat.Defs
 
 namespace Homonim
+open matchBands
+
+/-! ### structure of `matchBands` -/
+
+def pairsOf (srcB : List Nat) (mb2 : List (Option Nat)) : List (Nat × Nat) :=
+  (srcB.zip mb2).filterMap fun p => p.2.map fun r => (p.1, r)
+
+def stage1 (srcB : List Nat) (srcW : List (Option Rat)) (refB : List Nat) (refW : List (Option Rat))
+    (force : Bool) (tol : Rat) : Except MatchErr (List (Option Nat)) :=
+  let n := srcB.length
+  let m := refB.length
+  if npAny srcW && npAny refW && !force then
+      let dist := srcW.map fun s => refW.map fun r => relDist s r
+      let g := greedyMatch dist n (List.replicate n false) (List.replicate m false) (List.replicate n none)
+      if g.any fun e => match e with | some (_, d) => decide (tol < d) | none => false then .error .unmatchedWavelength
+      else .ok (g.map fun e => e.map fun jd => refB.getD jd.1 0)
+    else .ok (List.replicate n none)
+
+def stage2 (n m : Nat) (refB : List Nat) (force : Bool) (mb : List (Option Nat)) : Except MatchErr (List (Option Nat)) :=
+  let nMatched := (mb.filter Option.isSome).length
+  if nMatched < min n m then
+        let unmatchRef := refB.filter fun bi => !(mb.contains (some bi))
+        if n = m then
+          .ok (matchBands.fillNone mb unmatchRef)
+        else if force then .ok (matchBands.fillNone mb unmatchRef)
+        else .error .unmatchedCount
+      else .ok mb
+
+theorem matchBands_eq (srcB : List Nat) (srcW : List (Option Rat)) (refB : List Nat) (refW : List (Option Rat))
+    (force : Bool) (tol : Rat) : matchBands srcB srcW refB refW force tol =
+    if srcB.length > refB.length && !force then .error .fewerRef else
+    match stage1 srcB srcW refB refW force tol with
+    | .error e => .error e
+    | .ok mb => match stage2 srcB.length refB.length refB force mb with
+      | .error e => .error e
+      | .ok mb2 => .ok ((pairsOf srcB mb2).map (·.1), (pairsOf srcB mb2).map (·.2)) := by
+  rfl
+
+
+/-! ### the final pairing -/
+
+theorem pairsOf_nil_left (l) : pairsOf [] l = [] := by simp [pairsOf]
+theorem pairsOf_nil_right (l) : pairsOf l [] = [] := by simp [pairsOf]
+theorem pairsOf_cons_some (a x l l') : pairsOf (a :: l) (some x :: l') = (a, x) :: pairsOf l l' := by
+  simp [pairsOf]
+theorem pairsOf_cons_none (a l l') : pairsOf (a :: l) (none :: l') = pairsOf l l' := by
+  simp [pairsOf]
+
+theorem pairsOf_fst_sublist (srcB : List Nat) (mb2 : List (Option Nat)) :
+    ((pairsOf srcB mb2).map (·.1)).Sublist srcB := by
+  induction srcB generalizing mb2 with
+  | nil => simp [pairsOf_nil_left]
+  | cons a l ih =>
+    cases mb2 with
+    | nil => simp [pairsOf_nil_right]
+    | cons x l' =>
+      cases x with
+      | none => rw [pairsOf_cons_none]; exact (ih l').trans (List.sublist_cons_self _ _)
+      | some x => rw [pairsOf_cons_some]; simpa using ih l'
+
+theorem pairsOf_snd_sublist (srcB : List Nat) (mb2 : List (Option Nat)) :
+    ((pairsOf srcB mb2).map (·.2)).Sublist (mb2.filterMap id) := by
+  induction srcB generalizing mb2 with
+  | nil => simp [pairsOf_nil_left]
+  | cons a l ih =>
+    cases mb2 with
+    | nil => simp [pairsOf_nil_right]
+    | cons x l' =>
+      cases x with
+      | none => rw [pairsOf_cons_none]; simpa using ih l'
+      | some x => rw [pairsOf_cons_some]; simpa using ih l'
+
+theorem pairsOf_all_some (srcB : List Nat) (mb2 : List (Option Nat)) (hl : mb2.length = srcB.length)
+    (hall : ∀ x ∈ mb2, x.isSome = true) :
+    (pairsOf srcB mb2).map (·.1) = srcB ∧ ((pairsOf srcB mb2).map (·.2)).map some = mb2 := by
+  induction srcB generalizing mb2 with
+  | nil => cases mb2 <;> simp_all [pairsOf_nil_left]
+  | cons a l ih =>
+    cases mb2 with
+    | nil => simp at hl
+    | cons x l' =>
+      cases x with
+      | none => simp at hall
+      | some x =>
+        rw [pairsOf_cons_some]
+        have := ih l' (by simpa using hl) (fun y hy => hall y (List.mem_cons_of_mem _ hy))
+        simp [this]
+
+/-! ### `fillNone` -/
+
+theorem fillNone_length (l : List (Option Nat)) (vals : List Nat) : (fillNone l vals).length = l.length := by
+  induction l generalizing vals with
+  | nil => simp [fillNone]
+  | cons x l ih =>
+    cases x with
+    | some x => simp [fillNone, ih]
+    | none => cases vals <;> simp [fillNone, ih]
+
+theorem fillNone_mem (l : List (Option Nat)) (vals : List Nat) (x : Nat) (h : some x ∈ fillNone l vals) :
+    some x ∈ l ∨ x ∈ vals := by
+  induction l generalizing vals with
+  | nil => simp [fillNone] at h
+  | cons y l ih =>
+    cases y with
+    | some y =>
+      simp only [fillNone, List.mem_cons] at h
+      rcases h with h | h
+      · left; simp [h]
+      · rcases ih vals h with h | h
+        · left; simp [h]
+        · right; exact h
+    | none =>
+      cases vals with
+      | nil =>
+        simp only [fillNone, List.mem_cons] at h
+        rcases h with h | h
+        · simp at h
+        · rcases ih [] h with h | h
+          · left; simp [h]
+          · right; exact h
+      | cons v vals =>
+        simp only [fillNone, List.mem_cons] at h
+        rcases h with h | h
+        · right; simp at h; simp [h]
+        · rcases ih vals h with h | h
+          · left; simp [h]
+          · right; simp [h]
+
+theorem fm_some (y : Nat) (l : List (Option Nat)) : (some y :: l).filterMap id = y :: l.filterMap id := rfl
+theorem fm_none (l : List (Option Nat)) : ((none : Option Nat) :: l).filterMap id = l.filterMap id := rfl
+
+theorem fillNone_nodup (l : List (Option Nat)) (vals : List Nat) (hl : (l.filterMap id).Nodup) (hv : vals.Nodup)
+    (hd : ∀ v ∈ vals, some v ∉ l) : ((fillNone l vals).filterMap id).Nodup := by
+  induction l generalizing vals with
+  | nil => simp [fillNone]
+  | cons y l ih =>
+    cases y with
+    | some y =>
+      simp only [fillNone, fm_some, List.nodup_cons] at hl ⊢
+      refine ⟨?_, ih vals hl.2 hv (fun v hv' hm => hd v hv' (List.mem_cons_of_mem _ hm))⟩
+      intro hm
+      have hm' : some y ∈ fillNone l vals := by simpa using hm
+      rcases fillNone_mem _ _ _ hm' with h | h
+      · apply hl.1; simpa using h
+      · exact hd y h (by simp)
+    | none =>
+      cases vals with
+      | nil =>
+        simp only [fillNone, fm_none] at hl ⊢
+        exact ih [] hl hv (by simp)
+      | cons v vals =>
+        simp only [fillNone, fm_none, fm_some, List.nodup_cons] at hl hv ⊢
+        refine ⟨?_, ih vals hl hv.2 (fun w hw hm => hd w (List.mem_cons_of_mem _ hw) (List.mem_cons_of_mem _ hm))⟩
+        intro hm
+        have hm' : some v ∈ fillNone l vals := by simpa using hm
+        rcases fillNone_mem _ _ _ hm' with h | h
+        · exact hd v (by simp) (List.mem_cons_of_mem _ h)
+        · exact hv.1 h
+
+theorem fillNone_all_some (l : List (Option Nat)) (vals : List Nat)
+    (h : l.length ≤ (l.filter Option.isSome).length + vals.length) : ∀ x ∈ fillNone l vals, x.isSome = true := by
+  induction l generalizing vals with
+  | nil => simp [fillNone]
+  | cons y l ih =>
+    cases y with
+    | some y =>
+      simp only [fillNone, List.mem_cons]
+      rintro x (rfl | hx)
+      · rfl
+      · exact ih vals (by simp at h; omega) x hx
+    | none =>
+      cases vals with
+      | nil =>
+        exfalso
+        have := List.length_filter_le Option.isSome l
+        simp at h; omega
+      | cons v vals =>
+        simp only [fillNone, List.mem_cons]
+        rintro x (rfl | hx)
+        · rfl
+        · exact ih vals (by simp at h; omega) x hx
+
+theorem fillNone_getElem?_some (l : List (Option Nat)) (vals : List Nat) (i x : Nat)
+    (h : l[i]? = some (some x)) : (fillNone l vals)[i]? = some (some x) := by
+  induction l generalizing vals i with
+  | nil => simp at h
+  | cons y l ih =>
+    cases i with
+    | zero =>
+      simp at h; subst h; simp [fillNone]
+    | succ i =>
+      simp at h
+      cases y with
+      | some y => simp [fillNone, ih vals i h]
+      | none => cases vals <;> simp [fillNone, ih _ i h]
+
+theorem fillNone_getElem?_none (l : List (Option Nat)) (vals : List Nat) (i x : Nat)
+    (h : (fillNone l vals)[i]? = some (some x)) (hn : l[i]? = some none) : x ∈ vals := by
+  induction l generalizing vals i with
+  | nil => simp at hn
+  | cons y l ih =>
+    cases i with
+    | zero =>
+      simp at hn; subst hn
+      cases vals with
+      | nil => simp [fillNone] at h
+      | cons v vals => simp [fillNone] at h; simp [h]
+    | succ i =>
+      simp at hn
+      cases y with
+      | some y => simp [fillNone] at h; exact ih vals i h hn
+      | none =>
+        cases vals with
+        | nil => simp [fillNone] at h; exact ih _ i h hn
+        | cons v vals => simp [fillNone] at h; exact List.mem_cons_of_mem _ (ih _ i h hn)
+
+
+/-! ### counting, `argminEntry` -/
+
+theorem count_matched_le (refB : List Nat) (mb : List (Option Nat)) (hnd : refB.Nodup) :
+    (refB.filter fun b => mb.contains (some b)).length ≤ (mb.filter Option.isSome).length := by
+  have h1 : ((refB.filter fun b => mb.contains (some b)).map some).Nodup :=
+    (hnd.filter _).map (Option.some_injective _)
+  have h2 : ((refB.filter fun b => mb.contains (some b)).map some) ⊆ mb.filter Option.isSome := by
+    intro x hx
+    simp only [List.mem_map, List.mem_filter] at hx
+    obtain ⟨b, ⟨_, hb⟩, rfl⟩ := hx
+    simp only [List.mem_filter, Option.isSome_some, and_true]
+    simpa using hb
+  have := (List.subperm_of_subset h1 h2).length_le
+  simpa using this
+
+/-- the candidate entries scanned by `argminEntry` -/
+def entries (dist : List (List (Option Rat))) (rowUsed colUsed : List Bool) : List (Nat × Nat × Rat) :=
+  (List.range dist.length).flatMap fun i =>
+    if rowUsed.getD i true then [] else
+      let row := dist.getD i []
+      (List.range row.length).filterMap fun j =>
+        if colUsed.getD j true then none else (row.getD j none).map fun d => (i, j, d)
+
+def minStep (best : Option (Nat × Nat × Rat)) (e : Nat × Nat × Rat) : Option (Nat × Nat × Rat) :=
+  match best with
+  | none => some e
+  | some b => if e.2.2 < b.2.2 then some e else some b
+
+theorem argminEntry_eq (dist ru cu) : argminEntry dist ru cu = (entries dist ru cu).foldl minStep none := rfl
+
+theorem mem_entries (dist : List (List (Option Rat))) (ru cu : List Bool) (i j : Nat) (d : Rat) :
+    (i, j, d) ∈ entries dist ru cu ↔ i < dist.length ∧ ru.getD i true = false ∧ j < (dist.getD i []).length ∧
+      cu.getD j true = false ∧ (dist.getD i []).getD j none = some d := by
+  unfold entries
+  simp only [List.mem_flatMap, List.mem_range]
+  constructor
+  · rintro ⟨i', hi', h⟩
+    split at h
+    · simp at h
+    · rename_i hru
+      simp only [List.mem_filterMap, List.mem_range] at h
+      obtain ⟨j', hj', h⟩ := h
+      split at h
+      · simp at h
+      · rename_i hcu
+        simp only [Option.map_eq_some_iff] at h
+        obtain ⟨d', hd', h⟩ := h
+        simp only [Prod.mk.injEq] at h
+        obtain ⟨rfl, rfl, rfl⟩ := h
+        simp only [Bool.not_eq_true] at hru hcu
+        exact ⟨hi', hru, hj', hcu, hd'⟩
+  · rintro ⟨hi, hru, hj, hcu, hd⟩
+    refine ⟨i, hi, ?_⟩
+    rw [if_neg (by rw [hru]; simp)]
+    simp only [List.mem_filterMap, List.mem_range]
+    refine ⟨j, hj, ?_⟩
+    rw [if_neg (by rw [hcu]; simp)]
+    simp only [hd, Option.map_some]
+
+theorem foldl_minStep_none (l : List (Nat × Nat × Rat)) (init) :
+    l.foldl minStep init = none ↔ init = none ∧ l = [] := by
+  induction l generalizing init with
+  | nil => simp
+  | cons e l ih =>
+    simp only [List.foldl_cons, ih]
+    cases init with
+    | none => simp [minStep]
+    | some b => simp only [minStep]; split <;> simp
+
+theorem foldl_minStep_some (l : List (Nat × Nat × Rat)) (init r) (h : l.foldl minStep init = some r) :
+    (r ∈ l ∨ init = some r) ∧ (∀ e ∈ l, r.2.2 ≤ e.2.2) ∧ (∀ b, init = some b → r.2.2 ≤ b.2.2) := by
+  induction l generalizing init with
+  | nil => simp at h; subst h; simp
+  | cons e l ih =>
+    simp only [List.foldl_cons] at h
+    obtain ⟨h1, h2, h3⟩ := ih _ h
+    cases init with
+    | none =>
+      simp only [minStep] at h1 h3
+      refine ⟨?_, ?_, by simp⟩
+      · rcases h1 with h1 | h1
+        · left; simp [h1]
+        · left; simp at h1; simp [h1]
+      · intro e' he'
+        rcases List.mem_cons.1 he' with rfl | he'
+        · exact h3 _ rfl
+        · exact h2 _ he'
+    | some b =>
+      simp only [minStep] at h1 h3
+      by_cases hlt : e.2.2 < b.2.2
+      · simp only [hlt, if_true] at h1 h3
+        have hre := h3 _ rfl
+        refine ⟨?_, ?_, ?_⟩
+        · rcases h1 with h1 | h1
+          · left; simp [h1]
+          · left; simp at h1; simp [h1]
+        · intro e' he'
+          rcases List.mem_cons.1 he' with rfl | he'
+          · exact hre
+          · exact h2 _ he'
+        · intro b' hb'; simp at hb'; subst hb'; exact le_of_lt (lt_of_le_of_lt hre hlt)
+      · simp only [hlt, if_false] at h1 h3
+        have hrb := h3 _ rfl
+        refine ⟨?_, ?_, ?_⟩
+        · rcases h1 with h1 | h1
+          · left; simp [h1]
+          · right; exact h1
+        · intro e' he'
+          rcases List.mem_cons.1 he' with rfl | he'
+          · exact le_trans hrb (not_lt.1 hlt)
+          · exact h2 _ he'
+        · intro b' hb'; simp at hb'; subst hb'; exact hrb
+
+theorem argminEntry_none (dist ru cu) (h : argminEntry dist ru cu = none) : entries dist ru cu = [] := by
+  rw [argminEntry_eq, foldl_minStep_none] at h; exact h.2
+
+theorem argminEntry_some (dist ru cu r) (h : argminEntry dist ru cu = some r) :
+    r ∈ entries dist ru cu ∧ ∀ e ∈ entries dist ru cu, r.2.2 ≤ e.2.2 := by
+  rw [argminEntry_eq] at h
+  obtain ⟨h1, h2, _⟩ := foldl_minStep_some _ _ _ h
+  exact ⟨by simpa using h1, h2⟩
+
+
+/-! ### the greedy invariant -/
+
+structure GInv (dist : List (List (Option Rat))) (n m : Nat) (ru cu : List Bool)
+    (acc : List (Option (Nat × Rat))) : Prop where
+  lru : ru.length = n
+  lcu : cu.length = m
+  lacc : acc.length = n
+  row_iff : ∀ i : Nat, ru[i]? = some true ↔ ∃ (j : Nat) (d : Rat), acc[i]? = some (some (j, d))
+  col_iff : ∀ j : Nat, cu[j]? = some true ↔ ∃ (i : Nat) (d : Rat), acc[i]? = some (some (j, d))
+  ent : ∀ (i j : Nat) (d : Rat), acc[i]? = some (some (j, d)) → j < m ∧ (dist.getD i []).getD j none = some d
+  inj : ∀ (i i' j : Nat) (d d' : Rat), acc[i]? = some (some (j, d)) → acc[i']? = some (some (j, d')) → i = i'
+
+theorem getD_true_eq_false (l : List Bool) (i : Nat) : l.getD i true = false ↔ l[i]? = some false := by
+  rw [List.getD_eq_getElem?_getD]
+  cases h : l[i]? with
+  | none => simp
+  | some b => simp
+
+theorem GInv.init (dist : List (List (Option Rat))) (n m : Nat) :
+    GInv dist n m (List.replicate n false) (List.replicate m false) (List.replicate n none) := by
+  refine ⟨by simp, by simp, by simp, ?_, ?_, ?_, ?_⟩
+  · intro i; simp [List.getElem?_replicate]
+  · intro j; simp [List.getElem?_replicate]
+  · intro i j d; simp [List.getElem?_replicate]
+  · intro i i' j d d'; simp [List.getElem?_replicate]
+
+theorem GInv.step {dist : List (List (Option Rat))} {n m : Nat} {ru cu acc} (h : GInv dist n m ru cu acc)
+    {i j : Nat} {d : Rat} (hi : ru[i]? = some false) (hj : cu[j]? = some false) (hjm : j < m)
+    (hd : (dist.getD i []).getD j none = some d) :
+    GInv dist n m (ru.set i true) (cu.set j true) (acc.set i (some (j, d))) := by
+  obtain ⟨lru, lcu, lacc, row_iff, col_iff, ent, inj⟩ := h
+  have hin : i < n := by
+    rw [← lru]; exact (List.getElem?_eq_some_iff.1 hi).1
+  have hacci : ∀ (j' : Nat) (d' : Rat), acc[i]? ≠ some (some (j', d')) := by
+    intro j' d' hc
+    have := (row_iff i).2 ⟨j', d', hc⟩
+    rw [hi] at this; simp at this
+  have haccj : ∀ (i' : Nat) (d' : Rat), acc[i']? ≠ some (some (j, d')) := by
+    intro i' d' hc
+    have := (col_iff j).2 ⟨i', d', hc⟩
+    rw [hj] at this; simp at this
+  refine ⟨by simp [lru], by simp [lcu], by simp [lacc], ?_, ?_, ?_, ?_⟩
+  · intro i'
+    rw [List.getElem?_set, List.getElem?_set]
+    by_cases hii : i = i'
+    · subst hii; simp [lru, lacc, hin]
+    · simp only [hii, if_false]; exact row_iff i'
+  · intro j'
+    rw [List.getElem?_set]
+    by_cases hjj : j = j'
+    · subst hjj
+      simp only [if_true, lcu, hjm, true_iff]
+      exact ⟨i, d, by simp [lacc, hin]⟩
+    · simp only [hjj, if_false]
+      rw [col_iff j']
+      constructor
+      · rintro ⟨i', d', h'⟩
+        refine ⟨i', d', ?_⟩
+        rw [List.getElem?_set]
+        have : i ≠ i' := by rintro rfl; exact hacci _ _ h'
+        simp [this, h']
+      · rintro ⟨i', d', h'⟩
+        rw [List.getElem?_set] at h'
+        by_cases hii : i = i'
+        · subst hii; simp [lacc, hin] at h'; exact absurd h'.1 hjj
+        · simp only [hii, if_false] at h'; exact ⟨i', d', h'⟩
+  · intro i' j' d' h'
+    rw [List.getElem?_set] at h'
+    by_cases hii : i = i'
+    · subst hii; simp [lacc, hin] at h'; obtain ⟨rfl, rfl⟩ := h'; exact ⟨hjm, hd⟩
+    · simp only [hii, if_false] at h'; exact ent _ _ _ h'
+  · intro i1 i2 j' d1 d2 h1 h2
+    rw [List.getElem?_set] at h1 h2
+    by_cases h1i : i = i1 <;> by_cases h2i : i = i2
+    · rw [← h1i, ← h2i]
+    · subst h1i; simp [lacc, hin] at h1; simp only [h2i, if_false] at h2
+      obtain ⟨rfl, rfl⟩ := h1; exact absurd h2 (haccj _ _)
+    · subst h2i; simp [lacc, hin] at h2; simp only [h1i, if_false] at h1
+      obtain ⟨rfl, rfl⟩ := h2; exact absurd h1 (haccj _ _)
+    · simp only [h1i, h2i, if_false] at h1 h2; exact inj _ _ _ _ _ h1 h2
+
+
+theorem greedy_final {dist : List (List (Option Rat))} {n m : Nat} (hdl : dist.length = n)
+    (hrow : ∀ i, i < n → (dist.getD i []).length = m)
+    (Q : List (Option (Nat × Rat)) → Prop)
+    (hQ : ∀ ru cu acc i j d, GInv dist n m ru cu acc → Q acc → (i, j, d) ∈ entries dist ru cu →
+      (∀ e ∈ entries dist ru cu, d ≤ e.2.2) → Q (acc.set i (some (j, d)))) :
+    ∀ fuel ru cu acc, GInv dist n m ru cu acc → Q acc → ru.count false ≤ fuel →
+      ∃ ru' cu', GInv dist n m ru' cu' (greedyMatch dist fuel ru cu acc) ∧ Q (greedyMatch dist fuel ru cu acc) ∧
+        entries dist ru' cu' = [] := by
+  intro fuel
+  induction fuel with
+  | zero =>
+    intro ru cu acc hI hq hc
+    refine ⟨ru, cu, by simpa [greedyMatch] using hI, by simpa [greedyMatch] using hq, ?_⟩
+    rw [List.eq_nil_iff_forall_not_mem]
+    rintro ⟨i, j, d⟩ hm
+    rw [mem_entries] at hm
+    have h1 := (getD_true_eq_false _ _).1 hm.2.1
+    have h2 : false ∈ ru := List.mem_of_getElem? h1
+    have h3 : ru.count false = 0 := by omega
+    rw [List.count_eq_zero] at h3
+    exact h3 h2
+  | succ fuel ih =>
+    intro ru cu acc hI hq hc
+    rw [greedyMatch]
+    cases hargmin : argminEntry dist ru cu with
+    | none =>
+      exact ⟨ru, cu, hI, hq, argminEntry_none _ _ _ hargmin⟩
+    | some r =>
+      obtain ⟨i, j, d⟩ := r
+      obtain ⟨hmem, hmin⟩ := argminEntry_some _ _ _ _ hargmin
+      have hm := (mem_entries _ _ _ _ _ _).1 hmem
+      have hi := (getD_true_eq_false _ _).1 hm.2.1
+      have hj := (getD_true_eq_false _ _).1 hm.2.2.2.1
+      have hin : i < n := hdl ▸ hm.1
+      have hjm : j < m := by rw [← hrow i hin]; exact hm.2.2.1
+      have hI' := hI.step hi hj hjm hm.2.2.2.2
+      have hq' := hQ ru cu acc i j d hI hq hmem hmin
+      refine ih _ _ _ hI' hq' ?_
+      have hil : i < ru.length := (List.getElem?_eq_some_iff.1 hi).1
+      have hget : ru[i] = false := (List.getElem?_eq_some_iff.1 hi).2
+      rw [List.count_set hil, hget]
+      simp
+      omega
+
+
+/-- what we know about the result of the greedy matcher started from the empty state -/
+structure GreedyOut (dist : List (List (Option Rat))) (n m : Nat) (g : List (Option (Nat × Rat))) : Prop where
+  len : g.length = n
+  ent : ∀ (i j : Nat) (d : Rat), g[i]? = some (some (j, d)) → j < m ∧ (dist.getD i []).getD j none = some d
+  inj : ∀ (i i' j : Nat) (d d' : Rat), g[i]? = some (some (j, d)) → g[i']? = some (some (j, d')) → i = i'
+  maxl : ∀ (i j : Nat), j < m → g[i]? = some none → (∀ (i' : Nat) (d' : Rat), g[i']? ≠ some (some (j, d'))) →
+    (dist.getD i []).getD j none = none
+
+theorem greedy_spec {dist : List (List (Option Rat))} {n m : Nat} (hdl : dist.length = n)
+    (hrow : ∀ i, i < n → (dist.getD i []).length = m)
+    (Q : List (Option (Nat × Rat)) → Prop) (hQ0 : Q (List.replicate n none))
+    (hQ : ∀ ru cu acc i j d, GInv dist n m ru cu acc → Q acc → (i, j, d) ∈ entries dist ru cu →
+      (∀ e ∈ entries dist ru cu, d ≤ e.2.2) → Q (acc.set i (some (j, d)))) :
+    GreedyOut dist n m (greedyMatch dist n (List.replicate n false) (List.replicate m false) (List.replicate n none)) ∧
+    Q (greedyMatch dist n (List.replicate n false) (List.replicate m false) (List.replicate n none)) := by
+  obtain ⟨ru, cu, hI, hq, hE⟩ := greedy_final hdl hrow Q hQ n _ _ _ (GInv.init dist n m) hQ0
+    (by rw [List.count_replicate]; simp)
+  refine ⟨⟨hI.lacc, hI.ent, hI.inj, ?_⟩, hq⟩
+  intro i j hjm hgi hcol
+  cases hd : (dist.getD i []).getD j none with
+  | none => rfl
+  | some d =>
+    exfalso
+    have hin : i < n := by rw [← hI.lacc]; exact (List.getElem?_eq_some_iff.1 hgi).1
+    have hri : ru[i]? = some false := by
+      have hlt : i < ru.length := by rw [hI.lru]; exact hin
+      cases hb : ru[i] with
+      | false => exact List.getElem?_eq_some_iff.2 ⟨hlt, hb⟩
+      | true =>
+        obtain ⟨j', d', h'⟩ := (hI.row_iff i).1 (List.getElem?_eq_some_iff.2 ⟨hlt, hb⟩)
+        rw [hgi] at h'; simp at h'
+    have hcj : cu[j]? = some false := by
+      have hlt : j < cu.length := by rw [hI.lcu]; exact hjm
+      cases hb : cu[j] with
+      | false => exact List.getElem?_eq_some_iff.2 ⟨hlt, hb⟩
+      | true =>
+        obtain ⟨i', d', h'⟩ := (hI.col_iff j).1 (List.getElem?_eq_some_iff.2 ⟨hlt, hb⟩)
+        exact absurd h' (hcol _ _)
+    have : (i, j, d) ∈ entries dist ru cu := by
+      rw [mem_entries]
+      refine ⟨hdl ▸ hin, (getD_true_eq_false _ _).2 hri, ?_, (getD_true_eq_false _ _).2 hcj, hd⟩
+      rw [hrow i hin]; exact hjm
+    rw [hE] at this; simp at this
+
+/-- the distance matrix of `matchBands` -/
+def distOf (srcW refW : List (Option Rat)) : List (List (Option Rat)) :=
+  srcW.map fun s => refW.map fun r => relDist s r
+
+theorem distOf_length (srcW refW) : (distOf srcW refW).length = srcW.length := by simp [distOf]
+
+theorem distOf_row_length (srcW refW : List (Option Rat)) (i : Nat) (hi : i < srcW.length) :
+    ((distOf srcW refW).getD i []).length = refW.length := by
+  simp [distOf, List.getD_eq_getElem?_getD, List.getElem?_eq_getElem hi]
+
+theorem distOf_entry (srcW refW : List (Option Rat)) (i j : Nat) (s r : Option Rat)
+    (hi : srcW[i]? = some s) (hj : refW[j]? = some r) :
+    ((distOf srcW refW).getD i []).getD j none = relDist s r := by
+  simp [distOf, List.getD_eq_getElem?_getD, hi, hj]
+
+theorem relDist_some (a b : Rat) (ha : 0 < a) : relDist (some a) (some b) = some (|a - b| / a) := by
+  simp only [relDist]
+  rw [if_neg (ne_of_gt ha)]
+  congr 2
+  split
+  · rename_i h; rw [abs_of_neg h]; ring
+  · rename_i h; rw [abs_of_nonneg (not_lt.1 h)]
+
+
+/-! ### the two stages of `matchBands` -/
+
+theorem nodup_filterMap_of_index_inj {α : Type} (l : List (Option α))
+    (h : ∀ (i i' : Nat) (x : α), l[i]? = some (some x) → l[i']? = some (some x) → i = i') :
+    (l.filterMap id).Nodup := by
+  induction l with
+  | nil => simp
+  | cons y l ih =>
+    have ih' := ih (fun i i' x h1 h2 => by
+      have := h (i + 1) (i' + 1) x (by simpa using h1) (by simpa using h2)
+      omega)
+    cases y with
+    | none => simpa using ih'
+    | some y =>
+      have : (some y :: l).filterMap id = y :: l.filterMap id := rfl
+      rw [this, List.nodup_cons]
+      refine ⟨?_, ih'⟩
+      intro hm
+      have hm' : some y ∈ l := by simpa using hm
+      obtain ⟨i, hi⟩ := List.getElem?_of_mem hm'
+      have := h 0 (i + 1) y (by simp) (by simpa using hi)
+      omega
+
+/-- the map from greedy result to reference band numbers -/
+def toRef (refB : List Nat) (g : List (Option (Nat × Rat))) : List (Option Nat) :=
+  g.map fun e => e.map fun jd => refB.getD jd.1 0
+
+theorem toRef_getElem?_some (refB : List Nat) (g : List (Option (Nat × Rat))) (i x : Nat)
+    (h : (toRef refB g)[i]? = some (some x)) : ∃ j d, g[i]? = some (some (j, d)) ∧ x = refB.getD j 0 := by
+  simp only [toRef, List.getElem?_map, Option.map_eq_some_iff] at h
+  obtain ⟨e, he, h⟩ := h
+  obtain ⟨⟨j, d⟩, rfl, h⟩ := h
+  exact ⟨j, d, he, h.symm⟩
+
+theorem toRef_getElem?_none (refB : List Nat) (g : List (Option (Nat × Rat))) (i : Nat)
+    (h : (toRef refB g)[i]? = some none) : g[i]? = some none := by
+  simp only [toRef, List.getElem?_map, Option.map_eq_some_iff] at h
+  obtain ⟨e, he, h⟩ := h
+  cases e with
+  | none => exact he
+  | some e => simp at h
+
+theorem toRef_getElem?_of (refB : List Nat) (g : List (Option (Nat × Rat))) (i j : Nat) (d : Rat)
+    (h : g[i]? = some (some (j, d))) : (toRef refB g)[i]? = some (some (refB.getD j 0)) := by
+  simp [toRef, h]
+
+theorem stage1_cases (srcB : List Nat) (srcW : List (Option Rat)) (refB : List Nat) (refW : List (Option Rat))
+    (force : Bool) (tol : Rat) (mb : List (Option Nat)) (hs : srcW.length = srcB.length)
+    (hr : refW.length = refB.length) (h : stage1 srcB srcW refB refW force tol = .ok mb) :
+    (mb = List.replicate srcB.length none ∧ ¬(npAny srcW = true ∧ npAny refW = true ∧ force = false)) ∨
+    (npAny srcW = true ∧ npAny refW = true ∧ force = false ∧
+      ∃ g, GreedyOut (distOf srcW refW) srcB.length refB.length g ∧
+        (∀ (j : Nat) (d : Rat), some (j, d) ∈ g → d ≤ tol) ∧ mb = toRef refB g) := by
+  unfold stage1 at h
+  simp only at h
+  split at h
+  · rename_i hc
+    simp only [Bool.and_eq_true, Bool.not_eq_true'] at hc
+    right
+    refine ⟨hc.1.1, hc.1.2, hc.2, ?_⟩
+    split at h
+    · simp at h
+    · rename_i hany
+      have hspec := (greedy_spec (dist := distOf srcW refW) (n := srcB.length) (m := refB.length)
+        (by rw [distOf_length, hs]) (fun i hi => by rw [distOf_row_length _ _ _ (hs ▸ hi), hr])
+        (fun _ => True) trivial (fun _ _ _ _ _ _ _ _ _ _ => trivial)).1
+      refine ⟨_, hspec, ?_, ?_⟩
+      · intro j d hm
+        simp only [Bool.not_eq_true, List.any_eq_false] at hany
+        have := hany _ hm
+        simpa using this
+      · simp only [Except.ok.injEq] at h
+        exact h.symm
+  · rename_i hc
+    left
+    simp only [Except.ok.injEq] at h
+    refine ⟨h.symm, ?_⟩
+    simpa [Bool.and_eq_true] using hc
+
+
+theorem getD_eq_getElem' (l : List Nat) (j : Nat) (h : j < l.length) : l.getD j 0 = l[j] := by
+  simp [List.getD_eq_getElem?_getD, List.getElem?_eq_getElem h]
+
+theorem getD_mem_of_lt (l : List Nat) (j : Nat) (h : j < l.length) : l.getD j 0 ∈ l := by
+  rw [getD_eq_getElem' _ _ h]; exact List.getElem_mem h
+
+theorem getD_inj_of_nodup (l : List Nat) (hnd : l.Nodup) (j j' : Nat) (h : j < l.length) (h' : j' < l.length)
+    (he : l.getD j 0 = l.getD j' 0) : j = j' := by
+  rw [getD_eq_getElem' _ _ h, getD_eq_getElem' _ _ h'] at he
+  exact (hnd.getElem_inj_iff).1 he
+
+/-- general facts about the wavelength stage -/
+structure MbOut (n : Nat) (refB : List Nat) (mb : List (Option Nat)) : Prop where
+  len : mb.length = n
+  sub : ∀ x, some x ∈ mb → x ∈ refB
+  nodup : refB.Nodup → (mb.filterMap id).Nodup
+
+theorem toRef_mbOut (refB : List Nat) (dist n g) (hg : GreedyOut dist n refB.length g) :
+    MbOut n refB (toRef refB g) := by
+  refine ⟨by simp [toRef, hg.len], ?_, ?_⟩
+  · intro x hx
+    obtain ⟨i, hi⟩ := List.getElem?_of_mem hx
+    obtain ⟨j, d, hg', rfl⟩ := toRef_getElem?_some _ _ _ _ hi
+    exact getD_mem_of_lt _ _ (hg.ent _ _ _ hg').1
+  · intro hnd
+    apply nodup_filterMap_of_index_inj
+    intro i i' x h1 h2
+    obtain ⟨j, d, hg1, rfl⟩ := toRef_getElem?_some _ _ _ _ h1
+    obtain ⟨j', d', hg2, he⟩ := toRef_getElem?_some _ _ _ _ h2
+    have := getD_inj_of_nodup _ hnd _ _ (hg.ent _ _ _ hg1).1 (hg.ent _ _ _ hg2).1 he
+    subst this
+    exact hg.inj _ _ _ _ _ hg1 hg2
+
+theorem stage1_mbOut (srcB : List Nat) (srcW : List (Option Rat)) (refB : List Nat) (refW : List (Option Rat))
+    (force : Bool) (tol : Rat) (mb : List (Option Nat)) (hs : srcW.length = srcB.length)
+    (hr : refW.length = refB.length) (h : stage1 srcB srcW refB refW force tol = .ok mb) :
+    MbOut srcB.length refB mb := by
+  rcases stage1_cases _ _ _ _ _ _ _ hs hr h with ⟨rfl, _⟩ | ⟨_, _, _, g, hg, _, rfl⟩
+  · refine ⟨by simp, ?_, ?_⟩
+    · intro x hx; simp [List.mem_replicate] at hx
+    · intro _
+      have : (List.replicate srcB.length (none : Option Nat)).filterMap id = [] := by
+        rw [List.filterMap_eq_nil_iff]; intro a ha; rw [List.eq_of_mem_replicate ha]; rfl
+      rw [this]; exact List.nodup_nil
+  · exact toRef_mbOut _ _ _ _ hg
+
+/-- the unmatched reference bands -/
+def unmatchRef (refB : List Nat) (mb : List (Option Nat)) : List Nat :=
+  refB.filter fun bi => !(mb.contains (some bi))
+
+theorem mem_unmatchRef (refB : List Nat) (mb : List (Option Nat)) (x : Nat) :
+    x ∈ unmatchRef refB mb ↔ x ∈ refB ∧ some x ∉ mb := by
+  simp [unmatchRef]
+
+theorem stage2_cases (n m : Nat) (refB : List Nat) (force : Bool) (mb mb2 : List (Option Nat))
+    (h : stage2 n m refB force mb = .ok mb2) :
+    (mb2 = mb ∧ min n m ≤ (mb.filter Option.isSome).length) ∨
+    ((mb.filter Option.isSome).length < min n m ∧ (n = m ∨ force = true) ∧
+      mb2 = fillNone mb (unmatchRef refB mb)) := by
+  unfold stage2 at h
+  simp only at h
+  split at h
+  · rename_i hlt
+    right
+    split at h
+    · rename_i hnm
+      simp only [Except.ok.injEq] at h
+      exact ⟨hlt, Or.inl hnm, h.symm⟩
+    · split at h
+      · rename_i hf
+        simp only [Except.ok.injEq] at h
+        exact ⟨hlt, Or.inr hf, h.symm⟩
+      · simp at h
+  · rename_i hlt
+    left
+    simp only [Except.ok.injEq] at h
+    exact ⟨h.symm, not_lt.1 hlt⟩
+
+theorem stage2_mbOut (n m : Nat) (refB : List Nat) (force : Bool) (mb mb2 : List (Option Nat))
+    (hmb : MbOut n refB mb) (h : stage2 n m refB force mb = .ok mb2) : MbOut n refB mb2 := by
+  rcases stage2_cases _ _ _ _ _ _ h with ⟨rfl, _⟩ | ⟨_, _, rfl⟩
+  · exact hmb
+  · refine ⟨by rw [fillNone_length, hmb.len], ?_, ?_⟩
+    · intro x hx
+      rcases fillNone_mem _ _ _ hx with h | h
+      · exact hmb.sub _ h
+      · exact ((mem_unmatchRef _ _ _).1 h).1
+    · intro hnd
+      apply fillNone_nodup _ _ (hmb.nodup hnd) (hnd.filter _)
+      intro v hv
+      exact ((mem_unmatchRef _ _ _).1 hv).2
+
+/-- unforced: every entry of the second stage is matched -/
+theorem stage2_all_some (n m : Nat) (refB : List Nat) (mb mb2 : List (Option Nat)) (hnm : n ≤ m)
+    (hm : refB.length = m) (hnd : refB.Nodup)
+    (hmb : MbOut n refB mb) (h : stage2 n m refB false mb = .ok mb2) : ∀ x ∈ mb2, x.isSome = true := by
+  rcases stage2_cases _ _ _ _ _ _ h with ⟨rfl, hle⟩ | ⟨_, hnm', rfl⟩
+  · rw [Nat.min_eq_left hnm] at hle
+    have h1 : (mb2.filter Option.isSome).length = mb2.length := by
+      have := List.length_filter_le Option.isSome mb2
+      rw [hmb.len] at *; omega
+    rw [List.length_filter_eq_length_iff] at h1
+    exact h1
+  · have hnm'' : n = m := by simpa using hnm'
+    apply fillNone_all_some
+    have h1 := count_matched_le refB mb hnd
+    have h2 : (unmatchRef refB mb).length + (refB.filter fun b => mb.contains (some b)).length = refB.length := by
+      unfold unmatchRef
+      have := List.length_eq_length_filter_add (l := refB) (fun b => mb.contains (some b))
+      omega
+    rw [hmb.len]; omega
+
+
+/-! ### successful runs -/
+
+/-- decomposition of a successful `matchBands` -/
+theorem matchBands_ok {srcB : List Nat} {srcW : List (Option Rat)} {refB : List Nat} {refW : List (Option Rat)}
+    {force : Bool} {tol : Rat} {S R : List Nat} (h : matchBands srcB srcW refB refW force tol = .ok (S, R)) :
+    (force = false → srcB.length ≤ refB.length) ∧
+    ∃ mb mb2, stage1 srcB srcW refB refW force tol = .ok mb ∧
+      stage2 srcB.length refB.length refB force mb = .ok mb2 ∧
+      S = (pairsOf srcB mb2).map (·.1) ∧ R = (pairsOf srcB mb2).map (·.2) := by
+  rw [matchBands_eq] at h
+  split at h
+  · simp at h
+  · rename_i hc
+    refine ⟨fun hf => by subst hf; simpa using hc, ?_⟩
+    split at h
+    · simp at h
+    · rename_i mb h1
+      split at h
+      · simp at h
+      · rename_i mb2 h2
+        simp only [Except.ok.injEq, Prod.mk.injEq] at h
+        exact ⟨mb, mb2, h1, h2, h.1.symm, h.2.symm⟩
+
+/-- unforced success: the second-stage list is fully matched, `S = srcB` and `R` lists its values -/
+theorem matchBands_ok_unforced {srcB : List Nat} {srcW : List (Option Rat)} {refB : List Nat}
+    {refW : List (Option Rat)} {tol : Rat} {S R : List Nat} (hs : srcW.length = srcB.length)
+    (hr : refW.length = refB.length) (hnd : refB.Nodup)
+    (h : matchBands srcB srcW refB refW false tol = .ok (S, R)) :
+    srcB.length ≤ refB.length ∧
+    ∃ mb, stage1 srcB srcW refB refW false tol = .ok mb ∧
+      stage2 srcB.length refB.length refB false mb = .ok (R.map some) ∧ S = srcB ∧ R.length = srcB.length := by
+  obtain ⟨hnm, mb, mb2, h1, h2, rfl, rfl⟩ := matchBands_ok h
+  have hnm := hnm rfl
+  have hmb := stage1_mbOut _ _ _ _ _ _ _ hs hr h1
+  have hout := stage2_mbOut _ _ _ _ _ _ hmb h2
+  have hall := stage2_all_some _ _ _ _ _ hnm rfl hnd hmb h2
+  obtain ⟨e1, e2⟩ := pairsOf_all_some srcB mb2 hout.len hall
+  refine ⟨hnm, mb, h1, by rw [e2]; exact h2, e1, ?_⟩
+  have := congrArg List.length e2
+  simpa [hout.len] using this
+
+theorem npAny_of_pos (ws : List (Option Rat)) (i : Nat) (a : Rat) (h : ws[i]? = some (some a)) (ha : a ≠ 0) :
+    npAny ws = true := by
+  simp only [npAny, List.any_eq_true]
+  exact ⟨some a, List.mem_of_getElem? h, by simpa using ha⟩
+
+/-- core of `match_within_tol`, on the second-stage list -/
+theorem within_tol_core (srcB : List Nat) (srcW : List (Option ℚ)) (refB : List Nat) (refW : List (Option ℚ))
+    (tol : ℚ) (mb mb2 : List (Option Nat)) (hs : srcW.length = srcB.length) (hr : refW.length = refB.length)
+    (hnd : refB.Nodup) (hrany : npAny refW = true)
+    (h1 : stage1 srcB srcW refB refW false tol = .ok mb)
+    (h2 : stage2 srcB.length refB.length refB false mb = .ok mb2)
+    (i j : Nat) (a b : ℚ) (hj : j < refB.length) (ha : 0 < a)
+    (hmb2 : mb2[i]? = some (some (refB.getD j 0)))
+    (hwi : srcW[i]? = some (some a)) (hwj : refW[j]? = some (some b)) : |a - b| ≤ tol * a := by
+  have hent : ((distOf srcW refW).getD i []).getD j none = some (|a - b| / a) := by
+    rw [distOf_entry _ _ _ _ _ _ hwi hwj, relDist_some _ _ ha]
+  rcases stage1_cases _ _ _ _ _ _ _ hs hr h1 with ⟨_, hno⟩ | ⟨_, _, _, g, hg, htol, rfl⟩
+  · exact absurd ⟨npAny_of_pos _ _ _ hwi (ne_of_gt ha), hrany, rfl⟩ hno
+  · have hin : i < g.length := by
+      have h3 := (stage2_mbOut _ _ _ _ _ _ (toRef_mbOut _ _ _ _ hg) h2).len
+      have := (List.getElem?_eq_some_iff.1 hmb2).1
+      rw [hg.len]; omega
+    -- the greedy entry of row `i`
+    cases hgi : g[i] with
+    | some jd =>
+      obtain ⟨j', d⟩ := jd
+      have hgi' : g[i]? = some (some (j', d)) := List.getElem?_eq_some_iff.2 ⟨hin, hgi⟩
+      have hmbi := toRef_getElem?_of refB g i j' d hgi'
+      have hmb2i : mb2[i]? = some (some (refB.getD j' 0)) := by
+        rcases stage2_cases _ _ _ _ _ _ h2 with ⟨rfl, _⟩ | ⟨_, _, rfl⟩
+        · exact hmbi
+        · exact fillNone_getElem?_some _ _ _ _ hmbi
+      rw [hmb2] at hmb2i
+      simp only [Option.some.injEq] at hmb2i
+      have hjj := getD_inj_of_nodup _ hnd _ _ hj (hg.ent _ _ _ hgi').1 hmb2i
+      subst hjj
+      have hd := (hg.ent _ _ _ hgi').2
+      rw [hent] at hd
+      simp only [Option.some.injEq] at hd
+      have := htol j d (List.mem_of_getElem? hgi')
+      rw [← hd, div_le_iff₀ ha] at this
+      exact this
+    | none =>
+      exfalso
+      have hgi' : g[i]? = some none := List.getElem?_eq_some_iff.2 ⟨hin, hgi⟩
+      have hmbi : (toRef refB g)[i]? = some none := by simp [toRef, hgi']
+      rcases stage2_cases _ _ _ _ _ _ h2 with ⟨rfl, _⟩ | ⟨_, _, rfl⟩
+      · rw [hmbi] at hmb2; simp at hmb2
+      · have hun := fillNone_getElem?_none _ _ _ _ hmb2 hmbi
+        have hnot := ((mem_unmatchRef _ _ _).1 hun).2
+        have hmax := hg.maxl i j hj hgi' (by
+          intro i' d' hc
+          exact hnot (List.mem_of_getElem? (toRef_getElem?_of refB g i' j d' hc)))
+        rw [hent] at hmax; simp at hmax
+
+/-! ### nearest band wins -/
+
+theorem getElem?_bool_cases (l : List Bool) (i : Nat) (h : i < l.length) : l[i]? = some true ∨ l[i]? = some false := by
+  rw [List.getElem?_eq_getElem h]
+  cases l[i] <;> simp
+
+theorem nearest_greedy (srcW refW : List (Option ℚ)) (n m : Nat) (hs : srcW.length = n) (hr : refW.length = m)
+    (sw rw : Nat → ℚ) (hsw : ∀ i, i < n → srcW[i]? = some (some (sw i)) ∧ 0 < sw i)
+    (hrw : ∀ j, j < m → refW[j]? = some (some (rw j)))
+    (assign : Nat → Nat) (hin : ∀ i, i < n → assign i < m)
+    (hinj : ∀ i i', i < n → i' < n → assign i = assign i' → i = i')
+    (hnear : ∀ i j, i < n → j < m → j ≠ assign i →
+      |sw i - rw (assign i)| / sw i < |sw i - rw j| / sw i) :
+    (greedyMatch (distOf srcW refW) n (List.replicate n false) (List.replicate m false)
+        (List.replicate n none)).length = n ∧
+    ∀ i, i < n → (greedyMatch (distOf srcW refW) n (List.replicate n false) (List.replicate m false)
+        (List.replicate n none))[i]? = some (some (assign i, |sw i - rw (assign i)| / sw i)) := by
+  have hentry : ∀ i j, i < n → j < m →
+      ((distOf srcW refW).getD i []).getD j none = some (|sw i - rw j| / sw i) := by
+    intro i j hi hj
+    rw [distOf_entry _ _ _ _ _ _ (hsw i hi).1 (hrw j hj), relDist_some _ _ (hsw i hi).2]
+  have hdl : (distOf srcW refW).length = n := by rw [distOf_length, hs]
+  have hrowl : ∀ i, i < n → ((distOf srcW refW).getD i []).length = m := fun i hi => by
+    rw [distOf_row_length _ _ _ (hs ▸ hi), hr]
+  obtain ⟨hg, hq⟩ := greedy_spec (dist := distOf srcW refW) (n := n) (m := m) hdl hrowl
+    (fun acc => ∀ (i j : Nat) (d : ℚ), acc[i]? = some (some (j, d)) → j = assign i)
+    (by intro i j d; simp [List.getElem?_replicate])
+    (by
+      intro ru cu acc i j d hI hq hmem hmin i' j' d' h'
+      have hm := (mem_entries _ _ _ _ _ _).1 hmem
+      have hi : i < n := hdl ▸ hm.1
+      have hru := (getD_true_eq_false _ _).1 hm.2.1
+      rw [List.getElem?_set] at h'
+      by_cases hii : i = i'
+      · subst hii
+        have hlt : i < acc.length := by rw [hI.lacc]; exact hi
+        simp only [if_true, hlt, Option.some.injEq, Prod.mk.injEq] at h'
+        obtain ⟨rfl, rfl⟩ := h'
+        by_contra hne
+        have hjm : j < m := by rw [← hrowl i hi]; exact hm.2.2.1
+        have hd := hm.2.2.2.2
+        rw [hentry i j hi hjm] at hd
+        simp only [Option.some.injEq] at hd
+        -- column `assign i` is still free
+        have hcu : cu[assign i]? = some false := by
+          rcases getElem?_bool_cases cu (assign i) (by rw [hI.lcu]; exact hin i hi) with hc | hc
+          · exfalso
+            obtain ⟨i2, d2, h2⟩ := (hI.col_iff _).1 hc
+            have hi2 : i2 < n := by rw [← hI.lacc]; exact (List.getElem?_eq_some_iff.1 h2).1
+            have := hinj _ _ hi2 hi (hq _ _ _ h2).symm
+            subst this
+            have := (hI.row_iff i2).2 ⟨_, _, h2⟩
+            rw [hru] at this; simp at this
+          · exact hc
+        have hmem' : (i, assign i, |sw i - rw (assign i)| / sw i) ∈ entries (distOf srcW refW) ru cu := by
+          rw [mem_entries]
+          refine ⟨hm.1, hm.2.1, ?_, (getD_true_eq_false _ _).2 hcu, hentry i _ hi (hin i hi)⟩
+          rw [hrowl i hi]; exact hin i hi
+        have h1 := hmin _ hmem'
+        have h2 := hnear i j hi hjm hne
+        simp only at h1
+        rw [← hd] at h1
+        exact absurd h2 (not_lt.2 h1)
+      · simp only [hii, if_false] at h'
+        exact hq _ _ _ h')
+  refine ⟨hg.len, ?_⟩
+  intro i hi
+  generalize greedyMatch (distOf srcW refW) n (List.replicate n false) (List.replicate m false)
+        (List.replicate n none) = g at hg hq ⊢
+  have hlt : i < g.length := by rw [hg.len]; exact hi
+  cases hgi : g[i] with
+  | none =>
+    exfalso
+    have hgi' : g[i]? = some none := List.getElem?_eq_some_iff.2 ⟨hlt, hgi⟩
+    have := hg.maxl i (assign i) (hin i hi) hgi' (by
+      intro i' d' hc
+      have hi' : i' < n := by rw [← hg.len]; exact (List.getElem?_eq_some_iff.1 hc).1
+      have := hinj _ _ hi' hi (hq _ _ _ hc).symm
+      subst this
+      rw [hgi'] at hc; simp at hc)
+    rw [hentry i _ hi (hin i hi)] at this; simp at this
+  | some jd =>
+    obtain ⟨j, d⟩ := jd
+    have hgi' : g[i]? = some (some (j, d)) := List.getElem?_eq_some_iff.2 ⟨hlt, hgi⟩
+    have hj := hq _ _ _ hgi'
+    subst hj
+    have := (hg.ent _ _ _ hgi').2
+    rw [hentry i _ hi (hin i hi)] at this
+    simp only [Option.some.injEq] at this
+    rw [List.getElem?_eq_getElem hlt, hgi, this]
+
+
+theorem npAny_false (ws : List (Option ℚ)) (h : npAny ws = false) (w : Option ℚ) (hw : w ∈ ws) : w = some 0 := by
+  simp only [npAny, List.any_eq_false] at h
+  have := h w hw
+  cases w with
+  | none => simp at this
+  | some q => simpa using this
+
+/-- the second stage and the pairing when every source band has been matched by wavelength -/
+theorem finish_all_matched (srcB refB R : List Nat) (m : Nat) (hR : R.length = srcB.length) (hnm : srcB.length ≤ m) :
+    (match stage2 srcB.length m refB false (R.map some) with
+      | .error e => (.error e : Except MatchErr (List Nat × List Nat))
+      | .ok mb2 => .ok ((pairsOf srcB mb2).map (fun x : Nat × Nat => x.1), (pairsOf srcB mb2).map (fun x : Nat × Nat => x.2))) = .ok (srcB, R) := by
+  have hcount : ((R.map some).filter Option.isSome).length = srcB.length := by
+    rw [← hR]
+    have : (R.map some).filter Option.isSome = R.map some := by
+      rw [List.filter_eq_self]; intro a ha; simp only [List.mem_map] at ha; obtain ⟨x, _, rfl⟩ := ha; rfl
+    rw [this, List.length_map]
+  have h2 : stage2 srcB.length m refB false (R.map some) = .ok (R.map some) := by
+    unfold stage2
+    simp only [hcount]
+    rw [if_neg]
+    rw [Nat.min_eq_left hnm]; omega
+  rw [h2]
+  obtain ⟨e1, e2⟩ := pairsOf_all_some srcB (R.map some) (by simp [hR]) (by
+    intro x hx; simp only [List.mem_map] at hx; obtain ⟨y, _, rfl⟩ := hx; rfl)
+  have e3 : (pairsOf srcB (R.map some)).map (·.2) = R :=
+    (List.map_injective_iff.2 (Option.some_injective _)) e2
+  simp only [e1, e3]
 
 end Homonim
